@@ -59,35 +59,12 @@ def no_carried_state(rep, ix, top, rule):
 
 
 def _read_component(v, i, j, k):
-    """element [i, j, k] of the returned separations: follow setitem(...) layers (stores at [..., k]) and epsilon offsets"""
+    """element [i, j, k] of the returned separations (inside the block that is written); positions are (n, 2) arrays by
+    contract, so reshape(p, (n, 2)) of a position argument is the identity"""
     from ..elem import element
-    from ..plf import Fn as _Fn
-    cur = v
-    for _ in range(8):
-        if not isinstance(cur, Rat):
-            return None
-        ts = cur.terms()
-        if ts is None:
-            return None
-        # drop pure epsilon constants added for numerical safety
-        arr = [(c, m) for c, m in ts if m]
-        eps = [c for c, m in ts if not m]
-        if any(abs(complex(c)) > 1e-9 for c in eps):
-            return None
-        if len(arr) != 1 or abs(complex(arr[0][0]) - 1) > 0 or len(arr[0][1]) != 1 or arr[0][1][0][1] != 1:
-            e = element(Rat(dict((m, c) for c, m in arr)), (i, j), {})
-            return e
-        a = arr[0][1][0][0]
-        if isinstance(a, _Fn) and a.name == "setitem":
-            base, idx, val = a.args
-            if isinstance(idx, tuple) and len(idx) == 2 and idx[0] is Ellipsis and isinstance(idx[1], Rat) and idx[1].real_const() is not None:
-                if int(idx[1].real_const()) == k:
-                    return element(val, (i, j), {}) if isinstance(val, Rat) else None
-                cur = base
-                continue
-            return None
-        return element(cur, (i, j), {})
-    return None
+    if not isinstance(v, Rat):
+        return None
+    return element(v, (i, j, Rat.const(k)), {"__identity_reshape__": True})
 
 
 LEVEL = "other"
